@@ -26,12 +26,14 @@ structure Params where
   base₂ : St
   /-- the special block is known to have a child already -/
   hb : Prop
+  /-- there is a special block at all -/
+  sp : Bool
 
 structure Params.Ok (P : Params) : Prop where
   hρ : Injective P.ρ
   hν : Injective P.ν
   hγ : Injective P.γ
-  hT : P.T P.bx
+  hT : P.sp = true → P.T P.bx
   hfix : ∀ x, ¬ Invented x → P.ρ x = x
 
 /-- the nodes a group refers to -/
@@ -56,7 +58,7 @@ def mapGrp : Grp → Grp
 
 /-- the image of group `j`: the special block gets the extra first child -/
 def mapGrpAt (j : Nat) : Grp → Grp
-  | .block cs => if j = P.bx then .block (P.gx :: cs.map P.γ) else .block (cs.map P.γ)
+  | .block cs => if j = P.bx ∧ P.sp = true then .block (P.gx :: cs.map P.γ) else .block (cs.map P.γ)
   | g => mapGrp P g
 
 theorem mapGrpAt_row (j : Nat) (nodes : List Nat) (t : Str) :
@@ -65,13 +67,19 @@ theorem mapGrpAt_row (j : Nat) (nodes : List Nat) (t : Str) :
 theorem mapGrpAt_noop (j : Nat) (ps : List (Nat × Cond)) (r : Option Nat) :
     mapGrpAt P j (.noop ps r) = .noop (ps.map fun p => (P.γ p.1, p.2)) (r.map P.ν) := rfl
 
-theorem mapGrpAt_block_ne {j : Nat} (h : j ≠ P.bx) (cs : List Nat) :
+theorem mapGrpAt_block_ne {j : Nat} (h : j ≠ P.bx ∨ P.sp = false) (cs : List Nat) :
     mapGrpAt P j (.block cs) = .block (cs.map P.γ) := by
-  simp [mapGrpAt, h]
+  rcases h with h | h <;> simp [mapGrpAt, h]
 
-theorem mapGrpAt_block_bx (cs : List Nat) :
+theorem mapGrpAt_block_bx (hsp : P.sp = true) (cs : List Nat) :
     mapGrpAt P P.bx (.block cs) = .block (P.gx :: cs.map P.γ) := by
-  simp [mapGrpAt]
+  simp [mapGrpAt, hsp]
+
+/-- an untainted block is not the special one -/
+theorem Params.Ok.ne_bx {P : Params} (ok : P.Ok) {j : Nat} (ht : ¬ P.T j) : j ≠ P.bx ∨ P.sp = false := by
+  cases hsp : P.sp with
+  | false => exact .inr rfl
+  | true => exact .inl (fun e => ht (e ▸ ok.hT hsp))
 
 theorem getElem?_push_lt' {α : Type} {a : Array α} {i : Nat} {x y : α} (h : a[i]? = some x) :
     (a.push y)[i]? = some x := by
@@ -91,6 +99,8 @@ structure ASim (s₁ s₂ : St) : Prop where
   gdom : ∀ j, s₁.groups.size ≤ j → P.DG j ∧ ¬ P.T j
   bxlt : P.bx < s₁.groups.size
   bne : P.hb → ∃ c cs, s₁.groups[P.bx]? = some (.block (c :: cs))
+  wf : ∀ (j : Nat) (g : Grp), s₁.groups[j]? = some g →
+    (∀ i ∈ gnodes g, i < s₁.nodes.size) ∧ (∀ x ∈ grefs g, x < s₁.groups.size)
   nodes : ∀ i n, P.DN i → s₁.nodes[i]? = some n → s₂.nodes[P.ν i]? = some (rnNode P.ρ n)
   groups : ∀ j g, P.DG j → s₁.groups[j]? = some g → s₂.groups[P.γ j]? = some (mapGrpAt P j g)
   closed : ∀ j g, P.DG j → s₁.groups[j]? = some g → (∀ i ∈ gnodes g, P.DN i) ∧ (∀ x ∈ grefs g, P.DG x)
@@ -127,9 +137,12 @@ theorem ASim.setNode (ok : P.Ok) {s₁ s₂ : St} (h : ASim P s₁ s₂) {i : Na
       { s₂ with nodes := s₂.nodes.setIfInBounds (P.ν i) (rnNode P.ρ n') } := by
   have hlt : i < s₁.nodes.size := (Array.getElem?_eq_some_iff.mp ho).1
   have hlt2 := h.node_lt hd ho
-  refine { h with nsync := ?_, ndom := ?_, nodes := ?_, fr1n := ?_, fr2n := ?_ }
+  refine { h with nsync := ?_, ndom := ?_, wf := ?_, nodes := ?_, fr1n := ?_, fr2n := ?_ }
   · intro k; simpa using h.nsync k
   · intro j hj; exact h.ndom j (by simpa using hj)
+  · intro j g hg
+    have := h.wf j g hg
+    exact ⟨fun i hi => by simpa using this.1 i hi, this.2⟩
   · intro j m hdj hj
     simp only [Array.getElem?_setIfInBounds] at hj ⊢
     by_cases hij : i = j
@@ -154,11 +167,14 @@ theorem ASim.setNode (ok : P.Ok) {s₁ s₂ : St} (h : ASim P s₁ s₂) {i : Na
 theorem ASim.addNode {s₁ s₂ : St} (h : ASim P s₁ s₂) (n : NodeM) :
     ASim P { s₁ with nodes := s₁.nodes.push n } { s₂ with nodes := s₂.nodes.push (rnNode P.ρ n) } := by
   have h0 : P.ν s₁.nodes.size = s₂.nodes.size := by simpa using h.nsync 0
-  refine { h with nsync := ?_, ndom := ?_, nodes := ?_, fr1n := ?_, fr2n := ?_ }
+  refine { h with nsync := ?_, ndom := ?_, wf := ?_, nodes := ?_, fr1n := ?_, fr2n := ?_ }
   · intro k
     have := h.nsync (1 + k)
     simpa [Nat.add_assoc] using this
   · intro j hj; exact h.ndom j (by simp at hj; omega)
+  · intro j g hg
+    have := h.wf j g hg
+    exact ⟨fun i hi => by have := this.1 i hi; simp; omega, this.2⟩
   · intro j m hdj hj
     simp only [Array.getElem?_push] at hj ⊢
     by_cases hjs : j = s₁.nodes.size
@@ -185,7 +201,8 @@ theorem ASim.setGrp (ok : P.Ok) {s₁ s₂ : St} (h : ASim P s₁ s₂) {j : Nat
     (hd : P.DG j) (ho : s₁.groups[j]? = some old)
     (hn : ∀ i ∈ gnodes g', P.DN i) (hr : ∀ x ∈ grefs g', P.DG x)
     (ht : ¬ P.T j → ∀ x ∈ grefs g', ¬ P.T x)
-    (hbn : P.hb → j = P.bx → ∃ c cs, g' = .block (c :: cs)) :
+    (hbn : P.hb → j = P.bx → ∃ c cs, g' = .block (c :: cs))
+    (hwf : (∀ i ∈ gnodes g', i < s₁.nodes.size) ∧ (∀ x ∈ grefs g', x < s₁.groups.size)) :
     ASim P { s₁ with groups := s₁.groups.setIfInBounds j g' }
       { s₂ with groups := s₂.groups.setIfInBounds (P.γ j) (mapGrpAt P j g') } := by
   have hlt : j < s₁.groups.size := (Array.getElem?_eq_some_iff.mp ho).1
@@ -197,7 +214,7 @@ theorem ASim.setGrp (ok : P.Ok) {s₁ s₂ : St} (h : ASim P s₁ s₂) {j : Nat
     by_cases hjx : j = x
     · subst hjx; simp only [hlt, if_true, Option.some.injEq] at hx; exact .inl ⟨rfl, hx.symm⟩
     · simp only [hjx, if_false] at hx; exact .inr ⟨fun e => hjx e.symm, hx⟩
-  refine { h with gsync := ?_, gdom := ?_, bxlt := ?_, bne := ?_, groups := ?_, closed := ?_, ra := ?_, fr1g := ?_, fr2g := ?_ }
+  refine { h with gsync := ?_, gdom := ?_, bxlt := ?_, bne := ?_, wf := ?_, groups := ?_, closed := ?_, ra := ?_, fr1g := ?_, fr2g := ?_ }
   · intro k; simpa using h.gsync k
   · intro x hx; exact h.gdom x (by simpa using hx)
   · simpa using h.bxlt
@@ -211,6 +228,11 @@ theorem ASim.setGrp (ok : P.Ok) {s₁ s₂ : St} (h : ASim P s₁ s₂) {j : Nat
       refine ⟨c, cs, ?_⟩
       simp only [Array.getElem?_setIfInBounds, hjb, if_false]
       exact e
+  · intro x g hx
+    rcases get1 x g hx with ⟨rfl, rfl⟩ | ⟨hne, hx'⟩
+    · exact ⟨hwf.1, fun y hy => by simpa using hwf.2 y hy⟩
+    · have := h.wf x g hx'
+      exact ⟨this.1, fun y hy => by simpa using this.2 y hy⟩
   · intro x g hdx hx
     rcases get1 x g hx with ⟨rfl, rfl⟩ | ⟨hne, hx'⟩
     · simp [hlt2]
@@ -236,7 +258,8 @@ theorem ASim.setGrp (ok : P.Ok) {s₁ s₂ : St} (h : ASim P s₁ s₂) {j : Nat
 
 /-- a group is created on both sides -/
 theorem ASim.addGrp {s₁ s₂ : St} (h : ASim P s₁ s₂) (g : Grp)
-    (hn : ∀ i ∈ gnodes g, P.DN i) (hr : ∀ x ∈ grefs g, P.DG x) (ht : ∀ x ∈ grefs g, ¬ P.T x) :
+    (hn : ∀ i ∈ gnodes g, P.DN i) (hr : ∀ x ∈ grefs g, P.DG x) (ht : ∀ x ∈ grefs g, ¬ P.T x)
+    (hwf : (∀ i ∈ gnodes g, i < s₁.nodes.size) ∧ (∀ x ∈ grefs g, x < s₁.groups.size)) :
     ASim P { s₁ with groups := s₁.groups.push g } { s₂ with groups := s₂.groups.push (mapGrp P g) } := by
   have h0 : P.γ s₁.groups.size = s₂.groups.size := by simpa using h.gsync 0
   have hne : s₁.groups.size ≠ P.bx := by have := h.bxlt; omega
@@ -249,7 +272,7 @@ theorem ASim.addGrp {s₁ s₂ : St} (h : ASim P s₁ s₂) (g : Grp)
     by_cases hxs : x = s₁.groups.size
     · simp only [hxs, if_true, Option.some.injEq] at hx; exact .inl ⟨hxs, hx.symm⟩
     · simp only [hxs, if_false] at hx; exact .inr ⟨hxs, hx⟩
-  refine { h with gsync := ?_, gdom := ?_, bxlt := ?_, bne := ?_, groups := ?_, closed := ?_, ra := ?_, fr1g := ?_, fr2g := ?_ }
+  refine { h with gsync := ?_, gdom := ?_, bxlt := ?_, bne := ?_, wf := ?_, groups := ?_, closed := ?_, ra := ?_, fr1g := ?_, fr2g := ?_ }
   · intro k
     have := h.gsync (1 + k)
     simpa [Nat.add_assoc] using this
@@ -258,6 +281,11 @@ theorem ASim.addGrp {s₁ s₂ : St} (h : ASim P s₁ s₂) (g : Grp)
   · intro hhb
     obtain ⟨c, cs, e⟩ := h.bne hhb
     exact ⟨c, cs, getElem?_push_lt' e⟩
+  · intro x g0 hx
+    rcases get1 x g0 hx with ⟨rfl, rfl⟩ | ⟨hne', hx'⟩
+    · exact ⟨hwf.1, fun y hy => by have := hwf.2 y hy; simp; omega⟩
+    · have := h.wf x g0 hx'
+      exact ⟨this.1, fun y hy => by have := this.2 y hy; simp; omega⟩
   · intro x g0 hdx hx
     rcases get1 x g0 hx with ⟨rfl, rfl⟩ | ⟨hne', hx'⟩
     · simp [h0, hm]
@@ -298,6 +326,7 @@ theorem ASim.congr {s₁ s₂ t₁ t₂ : St} (h : ASim P s₁ s₂)
   · rw [e2]; exact h.gdom
   · rw [e2]; exact h.bxlt
   · rw [e2]; exact h.bne
+  · rw [e1, e2]; exact h.wf
   · rw [e1, f1]; exact h.nodes
   · rw [e2, f2]; exact h.groups
   · rw [e2]; exact h.closed
